@@ -88,12 +88,25 @@ def squash(s):
 
 def check_case(ctx, case):
     ctx.evaluated()
-    base_lines, lines, inserted = case["base"], case["lines"], case["inserted"]
-    text = "\n".join(lines) + "\n"
+    base_lines, lines, inserted = list(case["base"]), list(case["lines"]), case["inserted"]
+    end = "\n"
+    if case.get("tail") and any(l.lstrip().upper().startswith("SET ") for l in base_lines[-1:]):
+        # a SET line is only flushed by a following line: 'SET x = y;' as the very last line without a newline is dropped on the
+        # pinned tree with or without comments (no property claims it), so tails are not varied after a final SET
+        case = dict(case, tail=None)
+    if case.get("tail") in ("unterminated", "unterminated_no_newline") and base_lines and base_lines[-1].rstrip().endswith(";"):
+        # the last statement is closed by the end of the input instead of ';' (in the plain and in the commented script alike)
+        last = base_lines[-1]
+        idx = max(i for i, l in enumerate(lines) if l.startswith(last))
+        lines[idx] = lines[idx].replace(last, last.rstrip()[:-1], 1)
+        base_lines[-1] = last.rstrip()[:-1]
+    if case.get("tail") in ("no_newline", "unterminated_no_newline"):
+        end = ""
+    text = "\n".join(lines) + end
     if inserted:
         ctx.nontrivial_case(digest(text))
     kf = case.get("kf")
-    b = parse("\n".join(base_lines) + "\n")
+    b = parse("\n".join(base_lines) + end)
     if b[0] != "ok":
         ctx.inconclusive_because("base script raises: %s" % (b,))
         return
@@ -125,6 +138,20 @@ def check_case(ctx, case):
         ms = re.findall(r"zqx(\d+)", item)
         if ms:
             order.append(int(ms[0]))
+    # the comments entry is the script's comments - also when the same parser object is run again (the collector must not accumulate)
+    if inserted and case.get("gen") != "kf":
+        try:
+            from simple_ddl_parser import DDLParser
+            p = DDLParser(text)
+            first = comments_of(p.run())
+            keep = list(first)
+            second = comments_of(p.run(group_by_type=False))
+            ctx.obs["rerun_comment_checks"] += 1
+            if second != keep or first != keep or keep != coms:
+                ctx.violation("comments_differ_on_rerun", dict(case, script=text), {"fresh_object": coms[:6], "first_run": keep[:6], "second_run_same_object": second[:8],
+                                                                                "first_result_after_second_run": first[:8]}, kf=kf)
+        except Exception as e:
+            ctx.violation("exception_on_rerun", dict(case, script=text), {"exception": type(e).__name__, "message": str(e)[:200]}, kf=kf)
     if order != sorted(order):
         ctx.violation("comments_out_of_order", dict(case, script=text), {"markers_in_reported_order": order}, kf=kf)
 
@@ -159,7 +186,13 @@ def random_case(rng):
             styles.add(st)
         else:
             out.append(l)
-    return {"gen": "random", "base": base, "lines": out, "inserted": inserted, "styles": sorted(styles)}
+    case = {"gen": "random", "base": base, "lines": out, "inserted": inserted, "styles": sorted(styles)}
+    r = rng.random()
+    if r < 0.3:
+        case["tail"] = rng.choice(["unterminated", "no_newline", "unterminated_no_newline"])
+        if out and out[-1] is not base[-1] and rng.random() < 0.7 and out[-1] == base[-1]:
+            pass
+    return case
 
 
 def exhaustive_cases(ctx):
@@ -177,6 +210,10 @@ def exhaustive_cases(ctx):
                     ind = "   " if st.startswith("i") else ""
                     c = make_comment(rng, st.lstrip("i") if st.startswith("i") else st, mk, text=t, indent=ind)
                     yield {"gen": "exhaustive", "base": base, "lines": base[:pos] + c + base[pos:], "inserted": c, "styles": [st]}
+                    if pos == len(base):
+                        # the comment is the very last thing of the input: with/without final newline, last statement closed by ';' or by EOF
+                        for tail in ("unterminated", "no_newline", "unterminated_no_newline"):
+                            yield {"gen": "exhaustive", "base": base, "lines": base + c, "inserted": c, "styles": [st, "tail:" + tail], "tail": tail}
             for st in ["tdash", "tblock", "tdash_nested"]:
                 for pos in range(len(base)):
                     if st == "tdash_nested":
